@@ -1,4 +1,4 @@
-PROP = {'suites': ['c02'],
+PROP = {'suites': ['c02', 'c02reg'],
  'clauses': {1: 'a navigation (Location header or auto-submitted form) targeted a URI that is neither registered for the requesting client nor pushed by it'},
  'title': 'The authorization endpoint never redirects to an unvalidated URI',
  'text': 'Theorems over the model: nav_target_authorize and nav_target_callback (for every store and request every navigation - success, policy failure, validation error - targets a URI registered '
@@ -9,7 +9,10 @@ PROP = {'suites': ['c02'],
          'flavours; navigation target (after undoing net/url re-encoding of known URIs), mode and parameters compared with the model; monitor on the implementation trace. The form_post document is '
          "read as markup (harness/htmldoc.go: tags, attributes, text; any element, attribute, second form or text outside the template's skeleton becomes the navigation target of the observation, "
          'which no client has registered); generated state values carry quotes, angle brackets and entities. Deterministic scenario scenarioRedirectMatrix (shared with C03): registered URIs of a '
-         'client with three (plain, with query, ending in a slash) and their one-detail near misses at GET and POST, with a redirected error and under form_post.',
+         'client with three (plain, with query, ending in a slash) and their one-detail near misses at GET and POST, with a redirected error and under form_post. Registration changes mid-flow (suite '
+         "c02reg, Corr/Phased.v check_case2 / mon2): two-phase histories - a registered redirect URI is pushed and used, then retired from the client's registration (stored client rewritten through "
+         'the client manager, or the provider re-created with another static client list while the stores persist), then the pushed request_uri, plain requests and a redirected error name it again; '
+         'the model runs the two phases under the two worlds from the persisting stores, mon_C02 judges each phase with the registrations in force during it.',
  'note': 'Theorems are about the hand-written model; redirect URIs are real strings compared exactly, but net/url parsing/printing, form_post HTML and JARM signing are modelled or handled by the '
          'projection. Request objects are covered by C07. Fixed defect D22 (11b1d50) was found by this property.',
  'technique': 'Coq proof (per-request decision theorems by symbolic execution; rely/guarantee invariant over all histories) tied to the code by differential correspondence; monitor on implementation '
